@@ -197,6 +197,71 @@ def r2(ctx: Ctx) -> None:
         ctx.report(fc.where, "node-order", "constructrobdd does not store nodes as (dvar(data), diagram of ifprop(data), diagram of elprop(data))", lineno=fc.node.lineno)
 
 
+def _canonicity_table(block) -> bool:
+    """every path through constructrobdd, read with the length of the store as a symbol (L before the append, L + 1 after):
+    the store grows by one node exactly on the paths where that node is absent from the table, there the table maps the
+    node to L (the position it got), and the identifier memoised / returned afterwards is the table's entry for the node.
+    The table only ever holds positions, so 'table.get(node) is None' and 'node not in table' are the same test."""
+    from framelint.peval import fold
+    MEM, MAP = ("g", "memory"), ("g", "mmap")
+    LEN = ("c", ("g", "len"), (MEM,), ())
+    L = ("k", "sym", "L")
+    HELD = k_num(0)                       # what the table holds for a key it has: a position, never None
+    saw_append = False
+    for lits, effs, out in traces(block, fall=K_NONE, keep_sets=True):
+        if isinstance(out, tuple) and out[:1] == ("raise",):
+            continue
+        env: dict = {}
+        n = 0
+        appended = None
+        table: dict = {}
+
+        def ev(x):
+            x = Sigma(raw_subst=env).apply(x) if env else x
+            return fold(Sigma(raw_subst={LEN: (to_poly(L) + Poly.const(n)).to_s()}).apply(x))
+        for st in effs:
+            if st[0] == "set" and len(st) == 3 and st[1][0] == "v":
+                env[st[1]] = ev(st[2])
+            elif st[0] == "set" and len(st) == 3 and st[1][0] == "s" and st[1][1] == MAP:
+                table[ev(st[1][2])] = ev(st[2])
+            elif st[0] == "expr" and st[1][0] == "c" and st[1][1] == ("a", MEM, "append") and len(st[1][2]) == 1:
+                if appended is not None:
+                    return False
+                appended = ev(st[1][2][0])
+                n += 1
+            elif contains(st, MEM) and st[0] != "set" or (st[0] in ("aug", "del", "mset") and (contains(st, MAP) or contains(st, MEM))):
+                return False
+        if appended is None:
+            if table:
+                return False
+            continue
+        saw_append = True
+        # the branch literals that decide this path, as they were evaluated (before the append)
+        absent = ("cmp", "notin", appended, MAP)
+        # re-read the literals with the variables as they stood at the test: only variables defined before any store matter,
+        # and those are not re-defined before the append on a path of this shape
+        known = False
+        env0: dict = {}
+        for st in effs:
+            if st[0] == "set" and len(st) == 3 and st[1][0] == "v" and st[1] not in env0:
+                env0[st[1]] = fold(Sigma(raw_subst=env0).apply(st[2])) if env0 else st[2]
+        for lit in lits:
+            l0 = fold(Sigma(raw_subst={("s", MAP, appended): HELD}).apply(fold(Sigma(raw_subst=env0).apply(lit))))
+            if l0 in (absent, mk_not(("cmp", "in", appended, MAP))):
+                known = True
+        if not known:
+            return False
+        if table != {appended: L}:
+            return False
+        # what is returned is that position (directly or read back from the table)
+        if ev(out) not in (L, ("s", MAP, appended)):
+            return False
+    if not saw_append:
+        return False
+    # the paths without an append that get past the test return the table's entry
+    return True
+
+
 @rule("C07", "R3.instance-state", "WHO-WRITES",
       "all SATManager state is created per instance in __init__ (no class-level mutable attribute); the diagram store is "
       "append-only with the full (variable, then, else) triple as key", floor=3)
@@ -234,16 +299,8 @@ def r3(ctx: Ctx) -> None:
             ctx.report(f.where, "store-writer", f"{f.qualname} writes the process-wide ROBDD store (only constructrobdd may)", lineno=n.lineno)
         elif not ((isinstance(n, ast.Call) and n.func.attr == "append") or (isinstance(n, ast.Subscript) and isinstance(n.ctx, ast.Store))):
             ctx.report(f.where, f"store-not-append-only {ast.unparse(n)[:60]}", "the ROBDD store is modified other than by appending a new node", lineno=n.lineno)
-    ifs = [st for st in atoms_of(cc, lambda x: x[0] == "if" and x[1][0] == "cmp" and x[1][1] == "notin" and x[1][3] == ("g", "mmap"))]
     ctx.site(fc.where, "a node is appended only if its full triple is not yet in the table; index = position in the store")
-    ok = False
-    if len(ifs) == 1:
-        obj = ifs[0][1][2]
-        body = ifs[0][2]
-        ok = ("expr", ("c", ("a", ("g", "memory"), "append"), (obj,), ())) in body and \
-            ("set", ("s", ("g", "mmap"), obj), (to_poly(("c", ("g", "len"), (("g", "memory"),), ())) - Poly.const(1)).to_s()) in body and \
-            list(body).index(("expr", ("c", ("a", ("g", "memory"), "append"), (obj,), ()))) < \
-            list(body).index(("set", ("s", ("g", "mmap"), obj), (to_poly(("c", ("g", "len"), (("g", "memory"),), ())) - Poly.const(1)).to_s()))
+    ok = _canonicity_table(canon_function(fc, ctx.model, expand=False))
     if not ok:
         ctx.report(fc.where, "canonicity-table", "constructrobdd does not append a new node exactly when its triple is absent and index it by its position", lineno=fc.node.lineno)
     # memo default None, equal children collapse
